@@ -2,7 +2,7 @@
 import hashlib, os
 
 SEARCH_SEEDS = 4
-HOOK_COMMITS = []
+HOOK_COMMITS = ['f890e23', 'e4a796c', '33dcc81', '457ac67']
 TIMEOUT = {'quick': 1500, 'thorough': 7200}
 
 PRIMES = [4294967291, 4294967279, 4294967231, 4294967197, 4294967189, 4294967161, 4294967143, 4294967111]
@@ -49,6 +49,61 @@ C15_PARTIAL = [
 
 LOG_CRC = 'CRC-32C is a parameter of the log theorems (any 32-bit checksum); the driver instantiates it with a Lean table-driven CRC-32C (check value 0xE3069283 proved by kernel evaluation) and every frame checksum the real crc32c crate wrote is compared byte-for-byte'
 
+def c18_post(outdir, r):
+    """Independent re-check of the recorded queue runs (no model, no harness code): from each
+    `wcq` request alone, the batches must partition 0..m-1 into contiguous runs in order, every
+    member is delivered exactly once by its batch's leader before it leaves, and the value a call
+    returned (implementation line) is the value delivered to it."""
+    fails, n_runs, n_events = [], 0, 0
+    for i, c in enumerate(r['cases']):
+        t = c.split()
+        if len(t) < 2 or t[0] != 'wcq' or not t[1].isdigit():
+            continue
+        m = int(t[1]); n_runs += 1
+        nxt, delivered, left, cur, linked = 0, {}, set(), None, 0
+        bad = None
+        for ev in t[2:]:
+            n_events += 1
+            if ev == 'L':
+                linked += 1
+            elif ev[0] == 'B':
+                a, k = map(int, ev[1:].split(','))
+                if cur is not None or a != nxt or k < 1 or a + k > linked:
+                    bad = 'batch-not-next-contiguous-run ' + ev; break
+                if any(x not in left for x in range(a)):
+                    bad = 'lead-while-earlier-caller-linked ' + ev; break
+                cur = [a, k, 0]; nxt = a + k
+            elif ev[0] == 'D':
+                a, v = map(int, ev[1:].split(','))
+                if cur is None or cur[0] != a or cur[2] >= cur[1]:
+                    bad = 'deliver-outside-batch ' + ev; break
+                delivered[a + cur[2]] = v; cur[2] += 1
+            elif ev[0] == 'O':
+                a = int(ev[1:])
+                if a not in delivered or a in left:
+                    bad = 'left-without-output ' + ev; break
+                left.add(a)
+            elif ev[0] == 'F':
+                a = int(ev[1:])
+                if cur is None or cur[0] != a or cur[2] != cur[1] or a in left:
+                    bad = 'finish-before-all-delivered ' + ev; break
+                left.add(a); cur = None
+            else:
+                bad = 'unknown-event ' + ev; break
+        if bad is None and (nxt != m or len(left) != m or cur is not None):
+            bad = 'run-incomplete'
+        if bad is None:
+            mo = [x for x in r['impl'][i].split() if x.startswith('rets=')]
+            rets = [int(x) for x in mo[0][5:].split(',')] if mo and mo[0] != 'rets=-' else []
+            if rets != [delivered.get(j) for j in range(m)]:
+                bad = 'returned-value-is-not-the-delivered-one'
+        if bad:
+            fails.append((i, 'wcq-python-recheck', bad))
+    return {'fails': fails, 'coverage': {'python_recheck': {'queue_runs_rechecked': n_runs, 'queue_events': n_events}}}
+
+
+
+
 PROPS = {
     'C01': {
         'trusted': [STEP, 'dumped store states are read back through Sst::cursor / MemTable::cursor of the implementation'],
@@ -57,6 +112,16 @@ PROPS = {
         'partial': ['selector: closedness of the chosen compaction and invariants I1/I2 are *checked on every reached state* by the model driver (decidable checks proved sound: closed_check_sound, read_returns_latest), not proved for the selector as a function; expand_compaction (D-8) and recover (D-9) are known not to preserve them in general'],
         'level_text': 'Theorem read_returns_latest: on every store state passing the decidable check invB (I1: levels sorted; I2: newer-above) KeyValueStore::load returns exactly the visible version of the union of all components; step theorems: ingest, every closed compaction with any outputs/cut points/GC drops, trivial moves preserve I2 and (without drops) every read at every timestamp. The model kvsLoad/invB/closedB is run on every state the real store reaches in seeded single-stepped histories and compared with the real reads; the oracle compares reads with a sequential map.',
         'level_note': 'Trusted: Lean kernel; axioms propext, Classical.choice, Quot.sound; single-step hooks; state dumps via the implementation\'s own cursors. Invariants of reached states and closedness of chosen compactions are run-time checked, not proved for the selector. Known finding D-9 (recover).',
+    },
+    'C02': {
+        'trusted': [STEP, FS, 'strace 6.1 (-f -xx -y) reports every file-system-mutating system call of the traced store process with its path and data; the trace parser and file-system simulator in harness/src/fstrace.rs'],
+        'assumptions': ['directory operations (create, link, rename, unlink, mkdir, rmdir) are durable at once and in program order in both persistence models: the code never fsyncs a directory', 'system calls are atomic (torn appends are C12/C13)',
+                        'crash states are simulated from the trace of one complete run, not provoked', 'single injected EIO/ENOSPC faults are not yet explored by this check'],
+        'partial': ['fault_surfaces (injected EIO/ENOSPC) is not covered', 'crash_recover is batch-granular and excludes GC drops, a flush racing a compaction, and a second crash during recovery; the run explores crash points inside reopen blocks and verifier passes with the oracle only',
+                    'trace-vs-model comparison covers put/flush/reopen/merge-compaction blocks of single-entry histories; orphan temporaries of recover_one on an empty log are canonicalised away (justified by frame_ops_invisible)'],
+        'level_text': 'Theorem crash_recover: for every history of puts, flushes, clean reopens and compactions, every crash point in its system-call sequence and both persistence models, reopening succeeds and yields exactly the batches 0..k-1 with acknowledged <= k <= appended. The operation list the theorem quantifies over is compared with the strace-derived operation list of the real store for the same history; every prefix of the real trace is turned into a crash image under both models, reopened by the real code in a fresh process and read back against the acknowledged / in-flight operations.',
+        'level_note': 'Trusted: Lean kernel; axioms propext, Classical.choice, Quot.sound; strace and the trace parser/simulator; ordered durable directory operations; atomic system calls. Fault injection not covered.',
+        'technique': 'Lean 4 crash-recovery theorem over a file-system protocol model + strace-derived op-list correspondence + exhaustive crash-point enumeration of traced histories (both persistence models) with reopen by the real code',
     },
     'C03': {
         'trusted': [STEP, 'dumped store states are read back through Sst::cursor / MemTable::cursor of the implementation'],
@@ -187,5 +252,18 @@ PROPS = {
         'partial': [],
         'level_text': 'Sequential log: for every batch list (every batch size up to TABLE_FULL_SIZE, the limit the reader itself enforces: covers MAX_BATCH_SIZE and the BLOCK_SIZE that WriteBatch accepts) the model reader returns exactly the appended batches from the model writer\'s bytes whatever the block alignment (append_read, log_roundtrip), every truncation delivers a prefix of the batches and nothing else (truncated_log_prefix, readSome_take_prefix for arbitrary bytes), bytes before a damage point are read identically (reads_agree_before_damage), and a crash between write/fdatasync/ack leaves a readable prefix containing every acknowledged batch (crash_prefix); the parameters are the ones extracted from sst/src/log.rs (good_real). Concurrent appends: the work-coalescing queue hands the core every input once in link order and returns each caller its own result for all interleavings (Wcq/WcqV), and a caller answered true by the fsync core is covered by a completed fdatasync (answered_true_is_durable). The model is tied to the code byte-for-byte: real LogBuilder output vs writeAll (whole file hash, 64 KiB chunk hashes, 96-byte windows round each block boundary, full hex for small files), real LogIterator drain vs model reader, every cut of small files and every cut within +-64 bytes of each frame/header/padding/block boundary of >=1 MiB files, and the final file of N-thread ConcurrentLogBuilder runs vs writeAll of the observed merge.',
         'level_note': 'Trusted: Lean kernel; axioms propext, Classical.choice, Quot.sound; CRC-32C as a parameter; correspondence is agreement on generated cases only; durability at return is observed (strace ordering of write/fdatasync/return markers) on sampled schedules, the all-interleavings statement is about the queue model.',
+    },
+    'C18': {
+        'post': c18_post,
+        'trusted': ['event order of a queue run = order of a global atomic clock stamped in harness code that runs inside the queue\'s critical sections (core.work, OutputIterator::next, Clone of the output under the wait list mutex); link order is not observable without a hook and is taken to be the order in which the core saw the inputs (cross-checked against per-thread and real-time order)',
+                    'cache contents after an op are read by replaying the op prefix on a fresh cache and draining it with pop (the API has no iterator)'],
+        'assumptions': ['scheduler fairness (a runnable thread eventually runs); the theorem about wake-ups is deadlock freedom, not a time bound',
+                        'cores honour their contract: `work` yields one output per batched input (fewer leaves stolen callers waiting by design)',
+                        'entry sizes and their sums fit in usize (the model counts in Nat; the harness keeps sizes small)',
+                        'callers parked in `WaitList::link` on a full ring are outside the property: one unlink that frees two slots wakes only one of two parked linkers (notify_one) - observed by the harness probe, reported, no verdict'],
+        'partial': ['every_call_returns_partial: in every reachable state of the wake-up model every run of caller/leader steps is finite (lexicographic measure) and a step is enabled while a caller is linked, so without new arrivals every call returns under a scheduler that keeps running enabled steps; the interleaving with an unbounded stream of new arrivals and spurious wake-ups (FIFO argument, DESIGN C.38) and scheduler fairness are not Lean theorems',
+                    'lru_refines: the pointer structure (HashMap + intrusive list) is tied to the list model by the correspondence check on op sequences, not by a proof about the unsafe code'],
+        'level_text': 'Lean theorems about executable models of the three structures: the LRU model is a map (find after insert/lookup/remove), evicts only a suffix of the recency list, keeps size = sum of entry sizes, ends an evicting insert within capacity and exceeds capacity only by insert_no_evict sizes since the last insert (all op sequences); the wait-list model keeps its invariant for every link/unlink sequence incl. a full ring, has exactly one head (the oldest live guard) and hands the head to the next oldest on unlink; the coalescing-queue model (one step per critical section, every interleaving, arbitrary core answers) gives the core each input exactly once in link order, returns each call its own output and never reaches a panic; the wake-up model (two mutexes, spurious wake-ups) is never stuck, every run of caller/leader steps in it is finite and one is enabled while a caller is linked (so all calls return when arrivals stop), and the mutants without the notify_head of the leader or of the followers do get stuck; slots of the wait list are reused only after the head passed them. Tied to the code by: exact comparison of result / size / full recency order after every LRU op; head / tail / linked flags after every wait-list op on the real 65536-slot ring incl. a blocked 65537th link and index wrap-around; and replay of every recorded multi-thread run of the real queue (real event order, stamped from harness-defined core / iterator / Clone code) through the model step function, every event required to be enabled.',
+        'level_note': 'Trusted: Lean kernel; axioms propext, Classical.choice, Quot.sound; hand-written models; correspondence is agreement on generated cases and on the thread schedules that happened to occur; link order inside do_work is inferred (no hook), parking / notification events are not observed (only their effect: nobody stuck within 40 s). Liveness is proved as termination + enabledness of caller/leader steps without new arrivals; fairness and unbounded arrivals are assumptions (partial).',
     },
 }
